@@ -204,7 +204,7 @@ func run(c string) (obs string) {
 			}
 			var ge, le []int
 			t.TraverseStartingAt(k, func(_, v int) bool { ge = append(ge, v); return v%7 != stop })
-			t.ReverseTraverseStartingAt(k, func(_, v int) bool { le = append(le, v); return true })
+			t.ReverseTraverseStartingAt(k, func(_, v int) bool { le = append(le, v); return v%7 != (stop+3)%7 })
 			fmt.Fprintf(&sb, " g=%s ge=%s le=%s", g, ints(ge), ints(le))
 		}
 		done = append(done, sb.String())
